@@ -620,6 +620,19 @@ def zoom_one(R: Run, ns, cj):
     except Exception as e:  # pylint: disable=broad-except
         R.oracle(False, "reproject-raises", cj, f"xr_reproject / compute raised {type(e).__name__}: {e}", sig=sig)
         return False
+    # exact stream: the dependency table of the real grid_intersect versus the C12 model of _check_linear
+    # (snap_affine with the real tolerances) + _grid_intersect_linear, for dyadic placements
+    def dyadic(v):
+        return F(v).denominator & (F(v).denominator - 1) == 0 and F(v).denominator <= 2**12
+
+    if N & (N - 1) == 0 and dyadic(fx) and dyadic(fy):
+        _, _, S = geoboxes(ns, case)
+        R.corr("c13 lindeps " + " ".join([
+            ";".join(frac_s(v) for v in S), ";".join(frac_s(v) for v in case["D"]), str(case["sh"]), str(case["sw"]),
+            str(case["dh"]), str(case["dw"]), list_s(case["sy"]), list_s(case["sx"]), str(case["cy"]), str(case["cx"]),
+            frac_s(1e-3), frac_s(1e-6), frac_s(1e-8), frac_s(1e-10)]),
+            lambda: deps_s(real_deps(ns, sg, dg, case)),
+            sig=f"lindeps|N={N}|" + ("snapped" if 0 < max(abs(fx), abs(fy)) < 1e-3 else "aligned" if fx == 0 == fy else "kept"))
     a, _, c, _, e, f = case["A"]
     ix, ambx, ezx = axis_exact(a, c, case["dw"], case["sw"])
     iy, amby, ezy = axis_exact(e, f, case["dh"], case["sh"])
